@@ -312,9 +312,13 @@ namespace OpenMEEG {
             const BLAS_INT M = sizet_to_int(invA.nlin());
             const BLAS_INT N = sizet_to_int(ncol());
             BLAS_INT* pivots = new BLAS_INT[N];
-            DGETRF(M,N,invA.data(),M,pivots);
-            DGETRI(N,invA.data(),N,pivots);
+            int Info = 0;
+            if (N>0) // The inverse of the empty matrix is the empty matrix (LAPACKE rejects a zero leading dimension).
+                Info = DGETRF(M,N,invA.data(),M,pivots);
+            if (Info==0 && N>0)
+                Info = DGETRI(N,invA.data(),N,pivots);
             delete[] pivots;
+            om_assert(Info==0);
         #else
             int Info = 0;
             BLAS_INT M = sizet_to_int(invA.nlin());
